@@ -42,7 +42,7 @@ partial def parsePy (j : Json) : Except String PyObj := do
     let nv : NumVal ← (match k with
       | "fin" => do pure (NumVal.fin (← fldBigI v "m") (← fldBigI v "e"))
       | "inf" => do pure (NumVal.inf (← fldB v "neg"))
-      | "cplx" => do pure (NumVal.cplx (← fldBigI v "rm") (← fldBigI v "re") (← fldBigI v "im") (← fldBigI v "ie"))
+      | "cplx" => do pure (NumVal.cplx (← fldBigI v "rm") (← fldBigI v "re") (← fldBigI v "im") (← fldBigI v "ie") (← fldS v "txt"))
       | "nan" => do pure (NumVal.nan (← fldN v "id"))
       | _ => throw s!"unknown number kind {k}")
     pure (.num (← fldS j "cls") (← fldS j "repr") nv)
